@@ -23,10 +23,23 @@
 (* client's FIN (EPOLLRDHUP -> Ready::HUP) to frontend_hup() -> Close      *)
 (* before reading: whatever the client sent that sozu has not yet written  *)
 (* to the backend is dropped.                                              *)
+(*                                                                         *)
+(* Pacing.  Peers are free: a receiver may stop reading for as long as it  *)
+(* likes (Peer_Read is never forced before the sender has finished), so    *)
+(* every state "sender finished and closed, receiver has read nothing yet, *)
+(* kernel queue towards the receiver full, bytes left in sozu's buffer and *)
+(* in the kernel behind it" is part of the model.  The end of stream must  *)
+(* wait there.  Two self-test switches model the ways the readiness logic  *)
+(* can get this wrong (TLC must refute P_C18_FinAfterPending for each):    *)
+(*   FinOvertakesBuffered - check_connections() does not count the bytes   *)
+(*       of the finished direction still held in the session buffer;       *)
+(*   BlockedHupCloses - the hang-up of the sender is known, the receiver's *)
+(*       socket is not writable: instead of waiting, the readiness loop    *)
+(*       burns its iteration budget and the session is closed.             *)
 (***************************************************************************)
 EXTENDS Integers, Sequences, FiniteSets, TLC
 
-CONSTANTS Deviations,  \* subset of {"FrontFinDrops"}
+CONSTANTS Deviations,  \* subset of {"FrontFinDrops"} \cup self-test switches {"FinOvertakesBuffered", "BlockedHupCloses"}
           MaxBytes,    \* bytes each side may send
           B,           \* capacity of a session buffer
           K            \* capacity of a kernel queue
@@ -109,6 +122,25 @@ Sozu_FrontHup ==
   /\ sess' = "closed" /\ closedBy' = "c2b"
   /\ UNCHANGED <<sent, rd, wr, rcvd, finSent, finSeen, eof>>
 
+\* SELF-TEST DEVIATION: the end of stream of d was read, bytes of d are still in the session buffer
+\* (the receiver is slow), and the keep-alive decision looks at the other direction only
+Sozu_CloseOverBuffered(d) ==
+  /\ "FinOvertakesBuffered" \in Deviations
+  /\ sess = "open" /\ finSeen[d] /\ wr[d] < rd[d]
+  /\ wr[Other(d)] = rd[Other(d)]
+  /\ sess' = "closed" /\ closedBy' = d
+  /\ UNCHANGED <<sent, rd, wr, rcvd, finSent, finSeen, eof>>
+
+\* SELF-TEST DEVIATION: the sender of d hung up, bytes of d are pending in sozu (buffer or its kernel
+\* queue), the kernel queue towards the receiver is full: nothing can progress, the loop spins and closes
+Sozu_CloseBlockedHup(d) ==
+  /\ "BlockedHupCloses" \in Deviations
+  /\ sess = "open" /\ finSent[d] /\ wr[d] < sent[d]
+  /\ wr[d] - rcvd[d] = K
+  /\ sess' = "closed" /\ closedBy' = d
+  /\ UNCHANGED <<sent, rd, wr, rcvd, finSent, finSeen, eof>>
+Sozu_SelfTest == \E d \in Dirs : Sozu_CloseOverBuffered(d) \/ Sozu_CloseBlockedHup(d)
+
 \* one wrapper per action so that TLC's coverage names them
 Any_Sozu_Read == \E d \in Dirs : Sozu_Read(d)
 Any_Sozu_Write == \E d \in Dirs : Sozu_Write(d)
@@ -121,11 +153,11 @@ Any_Peer_Fin == \E d \in Dirs : Peer_Fin(d)
 
 SozuStep == Any_Sozu_Read \/ Any_Sozu_Write \/ Any_Sozu_SeeFin \/ Any_Sozu_CloseAfterFin
 PeerReads == Any_Peer_Read \/ Any_Peer_Eof
-Next == SozuStep \/ Sozu_FrontHup \/ PeerReads \/ Any_Peer_Write \/ Any_Peer_Fin
+Next == SozuStep \/ Sozu_FrontHup \/ Sozu_SelfTest \/ PeerReads \/ Any_Peer_Write \/ Any_Peer_Fin
 
 Spec == Init /\ [][Next]_vars
 \* sozu's steps, the kernel and the receivers are fair; senders are free
-FairSpec == Spec /\ WF_vars(SozuStep) /\ WF_vars(Sozu_FrontHup) /\ WF_vars(PeerReads)
+FairSpec == Spec /\ WF_vars(SozuStep) /\ WF_vars(Sozu_FrontHup) /\ WF_vars(Sozu_SelfTest) /\ WF_vars(PeerReads)
 
 ---------------------------------------------------------------------------
 (* Properties (C18, relay part)                                            *)
